@@ -161,7 +161,18 @@ impl Check for C06 {
                 if applied.len() < 2 {
                     return;
                 }
-                let c = applied[rng.range(1, applied.len() - 1)].clone();
+                // in half of the cases c is the LAST change of its actor here, so that the twin's
+                // follow-up and the actor's genuine next change claim the same (actor, seq)
+                let c = if rng.chance(50) {
+                    let mut last: std::collections::BTreeMap<Vec<u8>, Change> = Default::default();
+                    for x in applied.iter().skip(1) {
+                        last.insert(x.actor_id().to_bytes().to_vec(), x.clone());
+                    }
+                    let v: Vec<Change> = last.into_values().collect();
+                    if v.is_empty() { applied[rng.range(1, applied.len() - 1)].clone() } else { rng.pick(&v).clone() }
+                } else {
+                    applied[rng.range(1, applied.len() - 1)].clone()
+                };
                 let anc = amv::gen::ancestors(&w.ledger, c.deps());
                 let mut twin = fresh(enc, 42);
                 let anc_changes: Vec<Change> = topo.iter().filter(|x| anc.contains(&x.hash())).cloned().collect();
@@ -211,7 +222,7 @@ impl Check for C06 {
                         batch.push(f.clone());
                     }
                 }
-                if let (Some(f2), true) = (&f2, rng.chance(35)) {
+                if let (Some(f2), true) = (&f2, rng.chance(50)) {
                     // the follow-up of the conflicting branch arrives first and is held back
                     let _ = victim.apply_changes([f2.clone()]);
                     cx.count("conflicting_branch_descendant_prequeued");
